@@ -1,12 +1,14 @@
 (* SQLITE layer, C02: lifting the per-action simulation lemmas over plans and histories (induction, no bound on the
-   number of tables, actions or migrations).  PARTIAL: [step_hyp] admits, under decidable side conditions (A2, A3, A5 and
-   "outside the known classes"): CreateTable (no explicit CHECK), DeleteTable, AddColumn (ALTER path and rebuild path, no
-   unpaired inline constraint), DeleteColumn (rebuild path), ModifyColumnType / Nullable / Default / Comment, AddConstraint
-   (index / unique; key / foreign key / check through the rebuild with merge_constraint and the pending set),
-   RemoveConstraint (index; unique / foreign key / check), RenameTable (no derived names, not referenced), RawSql.
-   Not covered: RenameColumn, DeleteColumn through ALTER TABLE DROP COLUMN, RemoveConstraint of a primary key. *)
+   number of tables, actions or migrations).  [step_hyp] admits every action kind under decidable side conditions (A2, A3, A5
+   and "outside the known classes"): CreateTable (no explicit CHECK), DeleteTable, AddColumn (ALTER path and rebuild path, no
+   unpaired inline constraint), DeleteColumn (rebuild path and ALTER TABLE DROP COLUMN path with its DROP INDEX statements),
+   ModifyColumnType / Nullable / Default / Comment, AddConstraint (index / unique; key / foreign key / check through the
+   rebuild with merge_constraint and the pending set), RemoveConstraint (index; unique / foreign key / check / primary key
+   through the rebuild), RenameTable (no derived names, not referenced), RenameColumn (no derived names, not referenced),
+   RawSql.  PARTIAL in the sense of partial correctness: the theorems say "if the engine model executes the statements, the
+   catalog is the believed one". *)
 From Coq Require Import Lia Permutation.
-From VV.SQLITE Require Import Corr Known RowsP RebuildP SimP Sim2P Sim4P Sim5P Sim6P Sim7P.
+From VV.SQLITE Require Import Corr Known RowsP RebuildP SimP Sim2P Sim4P Sim5P Sim6P Sim7P Sim8P Sim9P.
 
 Definition no_explicit_checks (n : table_def) : bool :=
   match explicit_checks (t_constraints n) with [] => true | _ => false end.
@@ -41,8 +43,12 @@ Definition step_hyp (s : schema) (r : list action) (a : action) : bool :=
       end
   | DeleteColumn t col =>
       match find_table t s with
-      | Some td => (base_hyp s t && delcol_takes_temp td t col && forallb (delcol_ok col) (t_constraints td)
-                    && pk_sane (without_column td col))%bool
+      | Some td =>
+          (forallb (delcol_ok col) (t_constraints td) &&
+           if delcol_takes_temp td t col
+           then (base_hyp s t && pk_sane (without_column td col))%bool
+           else (ci_exact s t && unique_table s t && col_not_enum col td && col_ci_exact col td
+                 && delcol_names_ok s t col td)%bool)%bool
       | None => false
       end
   | AddConstraint t k =>
@@ -59,7 +65,6 @@ Definition step_hyp (s : schema) (r : list action) (a : action) : bool :=
   | RemoveConstraint t k =>
       match k with
       | CIndex _ _ => (unique_table s t && name_owner_ok s t k)%bool
-      | CPrimaryKey _ _ => false
       | _ => match find_table t s with
              | Some td =>
                  (base_hyp s t
@@ -80,7 +85,11 @@ Definition step_hyp (s : schema) (r : list action) (a : action) : bool :=
       | None => false
       end
   | RawSql _ => true
-  | RenameColumn _ _ _ => false
+  | RenameColumn t from to =>
+      match find_table t s with
+      | Some td => (ci_exact s t && unique_table s t && rencol_ok s t from to td)%bool
+      | None => false
+      end
   end.
 
 Fixpoint plan_hyp (s : schema) (acts : list action) : bool :=
@@ -128,15 +137,32 @@ Proof.
     + unfold base_hyp in Hh. split_hyp Hh. eapply sim_sqlite_add_column_rebuild; eauto.
     + split_hyp Hh. apply Bool.orb_false_iff in Re as [Re1 Re2]. apply Bool.negb_false_iff in Re1.
       eapply sim_sqlite_add_column_plain; eauto. now apply Nat.eqb_eq.
-  - (* DeleteColumn, rebuild path *)
-    destruct (find_table table s) as [td|] eqn:F; [|discriminate]. unfold base_hyp in Hh. split_hyp Hh.
-    assert (G : delete_column_temp table column td = GOk l).
-    { cbn [gen] in Hgen. unfold gen_delete_column in Hgen. rewrite F in Hgen. unfold delcol_takes_temp in Hh2.
-      destruct (find_col column (t_columns td)) as [cd|].
-      - destruct (is_enum_type (c_type cd)); [exact Hgen|]. cbn [orb] in Hh2.
-        destruct (delete_column_scan table column (t_constraints td) []); [exact Hgen|discriminate].
-      - cbn [orb] in Hh2. destruct (delete_column_scan table column (t_constraints td) []); [exact Hgen|discriminate]. }
-    eapply sim_sqlite_delete_column_rebuild; eauto.
+  - (* RenameColumn *)
+    destruct (find_table table s) as [td|] eqn:F; [|discriminate]. split_hyp Hh.
+    cbn [gen] in Hgen. injection Hgen as <-. eapply sim_sqlite_rename_column; eauto.
+  - (* DeleteColumn *)
+    destruct (find_table table s) as [td|] eqn:F; [|discriminate]. apply andb_prop in Hh as [Hok Hh].
+    destruct (delcol_takes_temp td table column) eqn:TT.
+    + (* rebuild path *)
+      unfold base_hyp in Hh. split_hyp Hh.
+      assert (G : delete_column_temp table column td = GOk l).
+      { cbn [gen] in Hgen. unfold gen_delete_column in Hgen. rewrite F in Hgen. unfold delcol_takes_temp in TT.
+        destruct (find_col column (t_columns td)) as [cd|].
+        - destruct (is_enum_type (c_type cd)); [exact Hgen|]. cbn [orb] in TT.
+          destruct (delete_column_scan table column (t_constraints td) []); [exact Hgen|discriminate].
+        - cbn [orb] in TT. destruct (delete_column_scan table column (t_constraints td) []); [exact Hgen|discriminate]. }
+      eapply sim_sqlite_delete_column_rebuild; eauto.
+    + (* ALTER TABLE DROP COLUMN path *)
+      split_hyp Hh.
+      assert (G : exists drops, delete_column_scan table column (t_constraints td) [] = DcDrops drops
+                                /\ l = drops ++ [SDropColumn table column]).
+      { cbn [gen] in Hgen. unfold gen_delete_column in Hgen. rewrite F in Hgen. unfold delcol_takes_temp in TT.
+        apply Bool.orb_false_iff in TT as [T1 T2].
+        destruct (delete_column_scan table column (t_constraints td) []) as [|drops]; [discriminate|].
+        exists drops. split; [reflexivity|].
+        destruct (find_col column (t_columns td)) as [cd|]; [rewrite T1 in Hgen|]; now injection Hgen. }
+      destruct G as (drops & Gs & ->).
+      eapply sim_sqlite_delete_column_plain; eauto.
   - (* ModifyColumnType *)
     rewrite gen_pending_irrelevant in Hgen by exact I.
     unfold rebuild_hyp in Hh. destruct (find_table table s) as [td|] eqn:F; [|rewrite Bool.andb_false_r in Hh; discriminate].
@@ -163,6 +189,8 @@ Proof.
   - (* RemoveConstraint *)
     rewrite gen_pending_irrelevant in Hgen by exact I.
     destruct constraint as [a pc|n uc|n fc rt rc od ou|n e|n ic]; try discriminate.
+    + destruct (find_table table s) as [td|] eqn:F; [|discriminate]. unfold base_hyp in Hh. split_hyp Hh.
+      eapply (sim_sqlite_remove_constraint_rebuild fk s c table (CPrimaryKey a pc) td); eauto; exact I.
     + destruct (find_table table s) as [td|] eqn:F; [|discriminate]. unfold base_hyp in Hh. split_hyp Hh.
       eapply (sim_sqlite_remove_constraint_rebuild fk s c table (CUnique n uc) td); eauto; exact I.
     + destruct (find_table table s) as [td|] eqn:F; [|discriminate]. unfold base_hyp in Hh. split_hyp Hh.
@@ -291,4 +319,31 @@ Definition demo_history2 : list (list action) :=
 Lemma demo_history2_runs :
   (exists r, run_history true [] empty_catalog demo_history2 = Some r)
   /\ (exists r, run_history false [] empty_catalog demo_history2 = Some r).
+Proof. split; eexists; vm_compute; reflexivity. Qed.
+
+(* a third history through the kinds admitted last: RenameColumn (a plain column, a foreign-key column, a primary-key
+   column), DeleteColumn through ALTER TABLE DROP COLUMN with a single-column index and a single-column unique dropped first,
+   RemoveConstraint of a table-level primary key, and a later rebuild of the table that is left without a key *)
+Definition demo_history3 : list (list action) :=
+  [[CreateTable "u" [mkCol "id" (TSimple Integer) false None None None None None None;
+                     mkCol "a" (TSimple Text) true None None None None None None;
+                     mkCol "b" (TSimple Integer) true None None None None None None;
+                     mkCol "c" (TSimple Integer) true None None None None None None]
+      [CPrimaryKey false ["id"]; CIndex None ["a"]; CUnique None ["c"]];
+    CreateTable "p" [mkCol "id" (TSimple Integer) false None None None None None None;
+                     mkCol "u_id" (TSimple Integer) true None None None None None None]
+      [CPrimaryKey false ["id"]; CForeignKey None ["u_id"] "u" ["id"] None None];
+    CreateTable "q" [mkCol "k" (TSimple Integer) false None None None None None None;
+                     mkCol "v" (TSimple Text) true None None None None None None]
+      [CPrimaryKey false ["k"]]];
+   [RenameColumn "u" "b" "bb";
+    RenameColumn "p" "u_id" "owner_id";
+    RenameColumn "q" "k" "key";
+    DeleteColumn "u" "a";
+    DeleteColumn "u" "c"];
+   [RemoveConstraint "q" (CPrimaryKey false ["key"]);
+    ModifyColumnNullable "q" "v" false (Some "''")]].
+Lemma demo_history3_runs :
+  (exists r, run_history true [] empty_catalog demo_history3 = Some r)
+  /\ (exists r, run_history false [] empty_catalog demo_history3 = Some r).
 Proof. split; eexists; vm_compute; reflexivity. Qed.
